@@ -28,7 +28,7 @@ Definition cb_dwarf (s8 : bool) (p : pres) (sec : list fde) (base_svma : N)
       | None => (CbErr rg, dw_eff)                  (* EhFrameHdrCouldNotFindAddress *)
       | Some f => (with_fde f svma first rg m, dw_eff)
       end
-    | _ => (CbPanic S_dwarf_svma_add, dw_eff)
+    | _ => (CbErr rg, dw_eff)                       (* checked_add: fix for S11 (was a panic) *)
     end
   | POwnEh | POwnDebug =>
     match index_build sec base_svma with
@@ -40,7 +40,7 @@ Definition cb_dwarf (s8 : bool) (p : pres) (sec : list fde) (base_svma : N)
       | Some f =>
         match add64p S_dwarf_svma_add base_svma rel with
         | Ok svma => (with_fde f svma first rg m, dw_eff)
-        | _ => (CbPanic S_dwarf_svma_add, dw_eff)
+        | _ => (CbRule uncovered, dw_eff)           (* checked_add: no FDE can cover it (fix for S11) *)
         end
       end
     end
